@@ -57,6 +57,8 @@ def analyse(prop, spec, ops, model, impl, crashes):
     crash_idx = {i: rc for i, rc in crashes}
     for i, (line, meta) in enumerate(ops):
         fam[meta.get("family", line.split(" ", 1)[0])] += 1
+        if model[i] is None and impl[i] is None and i not in crash_idx:
+            continue    # executor variant unavailable (reported separately)
         m = vlib.parse_answer(model[i])
         if i in crash_idx:
             if "crash" in spec["impl"]:
@@ -67,12 +69,16 @@ def analyse(prop, spec, ops, model, impl, crashes):
         if a["head"] == "crash":
             # not answered because an earlier op of the shard crashed and restart failed
             continue
+        if meta.get("modelless"):
+            # real-code-only op (oracle / guard pages / monitors); no model counterpart
+            m = dict(a)
         if m["head"] == "bad-op" or a["head"] == "bad-op":
             corr.append(dict(meta=meta, kind="bad-op", op=line, model=model[i], impl=impl[i]))
             continue
         ok_here = True
         # --- implementation against the property's own oracle / monitors
-        if "oracle" in spec["impl"] and a["head"] == "ok" and "oracle" in a and a["val"] != a["oracle"]:
+        if "oracle" in spec["impl"] and a["head"] == "ok" and "oracle" in a and meta.get("domain", "in") == "in" \
+                and a["val"].split("/")[0] != a["oracle"]:
             real.append(dict(meta=meta, kind="wrong-answer", op=line, impl=impl[i], oracle=a["oracle"], model=model[i]))
             ok_here = False
         if "fault" in spec["impl"]:
@@ -97,6 +103,12 @@ def analyse(prop, spec, ops, model, impl, crashes):
                 real.append(dict(meta=meta, kind="step-bound-exceeded", op=line, impl=impl[i], bound=meta["bound"]))
                 ok_here = False
         # --- model against implementation
+        if meta.get("allow_model_ptroob") and m["head"] == "fault" and m.get("fclass") == "ptroob":
+            # observation O2: pointer arithmetic leaving the allocation without a read is a
+            # fault of the model that the real code cannot exhibit
+            if ok_here:
+                agreed += 1
+            continue
         if "val" in spec["model"]:
             if meta.get("domain", "in") == "in" or m["head"] == "fault" or a["head"] == "fault":
                 # out-of-domain values are unspecified: only compare when in domain, except
@@ -112,7 +124,12 @@ def analyse(prop, spec, ops, model, impl, crashes):
                 corr.append(dict(meta=meta, kind="steps", op=line, model=model[i], impl=impl[i]))
                 ok_here = False
         if "loads" in spec["model"] and m["head"] == "ok" and a["head"] == "ok":
-            if a.get("loads", "?") != "?" and m.get("loads") != a.get("loads"):
+            ml = m.get("loads")
+            uw = meta.get("untraced_widths")
+            if uw and ml not in (None, "-"):
+                kept = [t for t in ml.split(",") if int(t.split(":")[2]) not in uw]
+                ml = ",".join(kept) if kept else "-"
+            if a.get("loads", "?") != "?" and ml != a.get("loads"):
                 corr.append(dict(meta=meta, kind="loads", op=line, model=model[i], impl=impl[i]))
                 ok_here = False
         if ok_here:
@@ -149,9 +166,11 @@ def run(prop, spec, tier, seed, t0):
     model = impl = None
     crashes = []
     real, corr, stats = [], [], dict(families={}, distinct_nontrivial=0, agreed=0)
+    variant_errors = []
     if build_error is None and os.path.exists(vlib.DRIVER):
-        model, impl, crashes = vlib.run_both([o[0] for o in ops], gens.exec_env(prop))
+        model, impl, crashes, verrs = vlib.run_grouped(ops)
         real, corr, stats = analyse(prop, spec, ops, model, impl, crashes)
+        variant_errors.extend(verrs)
     broken = []          # things that no longer check (theorems, tie, correspondence)
     for e in ex.get("broken", []):
         broken.append("extractor: " + e)
@@ -159,6 +178,8 @@ def run(prop, spec, tier, seed, t0):
         broken.append("lean: " + e)
     if build_error:
         broken.append(build_error)
+    for e in variant_errors:
+        broken.append(e)
     if corr:
         broken.append("correspondence: %d disagreement(s); first: %s" % (len(corr), json.dumps(corr[0])[:600]))
     # extractor facts relevant to the property
@@ -169,7 +190,7 @@ def run(prop, spec, tier, seed, t0):
     searched = 0
     if broken and not real and build_error is None and tier == "quick" and os.path.exists(vlib.DRIVER):
         ops2 = list(gens.generate(prop, "thorough", seed + 1, budget=200000))
-        m2, i2, c2 = vlib.run_both([o[0] for o in ops2], gens.exec_env(prop))
+        m2, i2, c2, _ = vlib.run_grouped(ops2)
         r2, _, _ = analyse(prop, spec, ops2, m2, i2, c2)
         searched = len(ops2)
         real.extend(r2)
